@@ -159,16 +159,98 @@ func c27(c *Ctx) {
 
 	// R3: controller command codec is strict JSON
 	dec := c.Fn("pkg/controller/command.Decode")
-	c.Guard("R3-command", dec, RetNil{},
-		"after: encoding/json.Decoder.DisallowUnknownFields",
-		"encoding/json.Decoder.Decode(*, env) == nil",
-		"encoding/json.Decoder.Decode(*, trailing) == io.EOF",
-		"env.Version == 1")
-	c.Guard("R3-command", dec, CallTo{"encoding/json.Decoder.Decode(*, env)"}, "after: encoding/json.Decoder.DisallowUnknownFields")
+	c.Guard("R3-command", dec, RetNil{}, "after: encoding/json.Decoder.DisallowUnknownFields")
+	// every Decode of the strict decoder (envelope and trailing-token probe) runs after DisallowUnknownFields
+	c.Guard("R3-command", dec, CallTo{"encoding/json.Decoder.Decode"}, "after: encoding/json.Decoder.DisallowUnknownFields")
+	// ‹envelope› = the value whose .Command is returned on success, ‹rest› = the target of the other Decode
+	// call (the trailing-token probe). Both are resolved from the return operand / call arguments, not from
+	// the names the locals happen to have.
+	if dec != nil {
+		envelope, rest, why := "", "", ""
+		for _, in := range instrsMatching(dec, RetNil{}) {
+			p := Path(retOperand(in.(*ssa.Return), 0))
+			base := strings.TrimSuffix(p, ".Command")
+			if base == p || (envelope != "" && envelope != base) {
+				why = "a success return hands back " + p + ", not the Command field of the one decoded envelope"
+			}
+			envelope = base
+		}
+		if envelope != "" && why == "" {
+			sawEnvelope := false
+			for _, in := range instrsMatching(dec, CallTo{"encoding/json.Decoder.Decode"}) {
+				args := callArgs(in.(ssa.CallInstruction).Common())
+				if len(args) != 2 {
+					why = "unexpected Decode call shape"
+					break
+				}
+				switch t := Path(args[1]); {
+				case t == envelope:
+					sawEnvelope = true
+				case rest == "" || rest == t:
+					rest = t
+				default:
+					why = "more than two decode targets (" + rest + ", " + t + ")"
+				}
+			}
+			if why == "" && (!sawEnvelope || rest == "") {
+				why = "expected one Decode into the returned envelope and one trailing-token probe into another value"
+			}
+		}
+		switch construct := c.P.Name(dec) + "#decode-targets"; {
+		case envelope == "": // no success return: reported as vacuous by the Guard above
+		case why != "":
+			c.add("shape", "R3-command", construct, Violated, c.P.Pos(dec.Pos()), why)
+		default:
+			c.add("shape", "R3-command", construct, Held, c.P.Pos(dec.Pos()), "success returns "+envelope+".Command; Decode targets are "+envelope+" and the probe "+rest)
+			c27GuardRef(c, "R3-command", dec, RetNil{}, map[string]string{"envelope": envelope, "rest": rest},
+				"encoding/json.Decoder.Decode(*, ‹envelope›) == nil",
+				"encoding/json.Decoder.Decode(*, ‹rest›) == io.EOF",
+				"‹envelope›.Version == 1")
+		}
+	}
 	// the command package decodes only through the strict decoder above (no lenient json.Unmarshal beside it)
 	c.NoCalls("R3-command", "encoding/json.Unmarshal", "pkg/controller/command.*")
 	hdr := c.Fn("pkg/cluster/net.CheckHeader")
 	c.Guard("R3-header", hdr, RetNil{}, "len(data) >= 2", "data[0] == wantVersion", "data[1] == wantKind")
+}
+
+// c27GuardRef is c.Guard for guards that mention values the caller resolved structurally (return
+// operands, call arguments: SSA identity). A guard names such a value ‹name›; for matching the placeholder
+// is replaced by refs[name] (the value's rendering in fn) while the obligation key keeps the placeholder,
+// so the rule does not depend on the identifier of a local variable.
+func c27GuardRef(c *Ctx, rule string, fn *ssa.Function, eff Effect, refs map[string]string, guards ...string) {
+	if fn == nil {
+		return
+	}
+	name := c.P.Name(fn)
+	c.FuncsAnalysed[name] = true
+	effs := instrsMatching(fn, eff)
+	if len(effs) == 0 {
+		c.add("guard", rule, name+"#"+eff.String(), Undecided, c.P.Pos(fn.Pos()), "no instruction matches the effect (vacuous)")
+		return
+	}
+	for _, gs := range guards {
+		construct := name + "#" + eff.String() + "⇐" + gs
+		real := gs
+		for k, v := range refs {
+			real = strings.ReplaceAll(real, "‹"+k+"›", v)
+		}
+		g := parseGuard(real)
+		removed, descr := guardEdges(fn, g)
+		c.EdgesRemoved += len(removed)
+		limit := reachUnguarded(fn, removed, g.afters)
+		var bad []string
+		for _, e := range effs {
+			if lim, ok := limit[e.Block()]; ok && indexIn(e.Block(), e) < lim {
+				bad = append(bad, c.P.InstrPos(e))
+			}
+		}
+		if len(bad) > 0 {
+			c.add("guard", rule, construct, Violated, bad[0], fmt.Sprintf("effect %q in %s reachable without guard %q at %s", eff.String(), name, real, strings.Join(bad, ", ")))
+			continue
+		}
+		c.add("guard", rule, construct, Held, c.P.InstrPos(effs[0]), fmt.Sprintf("%d effect site(s); %d guard edge(s) removed [%s]; no unguarded path from entry (back-references %v)", len(effs), len(removed), strings.Join(dedup(descr), "; "), refs))
+	}
 }
 
 var c27Triage = map[string]string{}
